@@ -224,6 +224,14 @@ fn rename_unit_refs(merge_module: &mut Module, rename_table: &HashMap<String, St
             }
         }
     }
+
+    for unit in &mut merge_module.unit {
+        if let Some(ref_unit) = &mut unit.ref_unit {
+            if let Some(newname) = rename_table.get(&ref_unit.unit) {
+                ref_unit.unit = newname.to_owned();
+            }
+        }
+    }
 }
 
 // ------------------------ COMPU_TAB / COMPU_VTAB / COMPU_VTAB_RANGE ------------------------
@@ -356,6 +364,16 @@ fn rename_compu_method_refs(merge_module: &mut Module, rename_table: &HashMap<St
     for typedef_measurement in &mut merge_module.typedef_measurement {
         if let Some(newname) = rename_table.get(&typedef_measurement.conversion) {
             typedef_measurement.conversion = newname.to_owned();
+        }
+    }
+
+    for instance in &mut merge_module.instance {
+        for overwrite in &mut instance.overwrite {
+            if let Some(conversion) = &mut overwrite.conversion {
+                if let Some(newname) = rename_table.get(&conversion.name) {
+                    conversion.name = newname.to_owned();
+                }
+            }
         }
     }
 }
